@@ -475,6 +475,38 @@ impl Trainer {
         self.provider.len()
     }
 
+    /// Verification hook: `extract_feature_set` (the three rewriters, then the templates) applied
+    /// to feature strings, on parsed `feature.def` / `rewrite.def` texts.  Returns per row the
+    /// (unigram, left, right) feature ids (`None` = no feature) and the three string -> id maps.
+    #[allow(clippy::type_complexity)]
+    pub fn verif_feature_sets(
+        feature_def: &str,
+        rewrite_def: &str,
+        rows: &[(String, u32)],
+    ) -> Result<(
+        Vec<(Vec<u32>, Vec<Option<u32>>, Vec<Option<u32>>)>,
+        [Vec<(String, u32)>; 3],
+    )> {
+        let mut fe = TrainerConfig::parse_feature_config(feature_def.as_bytes())?;
+        let (u, l, r) = TrainerConfig::verif_parse_rewrite_config(rewrite_def.as_bytes())?;
+        let mut out = vec![];
+        for (feature_str, cate_id) in rows {
+            let fs = Self::extract_feature_set(&mut fe, &u, &l, &r, feature_str, *cate_id);
+            out.push((
+                fs.unigram().iter().map(|x| x.get()).collect(),
+                fs.bigram_left().iter().map(|x| x.map(|y| y.get())).collect(),
+                fs.bigram_right().iter().map(|x| x.map(|y| y.get())).collect(),
+            ));
+        }
+        let dump = |m: &HashMap<String, NonZeroU32>| -> Vec<(String, u32)> {
+            let mut v: Vec<(String, u32)> = m.iter().map(|(k, v)| (k.clone(), v.get())).collect();
+            v.sort_by_key(|x| x.1);
+            v
+        };
+        let maps = [dump(&fe.unigram_feature_ids), dump(&fe.left_feature_ids), dump(&fe.right_feature_ids)];
+        Ok((out, maps))
+    }
+
     /// Verification hook: the training lattice of one example, as (target, label) lists per
     /// boundary, built exactly as `train` does.
     pub fn verif_build_lattice(&mut self, example: &mut Example) -> Result<Vec<Vec<(usize, u32)>>> {
